@@ -25,6 +25,19 @@ class Undecided(Exception):
     pass
 
 
+class StepEnd(Exception):
+    """`continue`: the rest of the body is skipped"""
+
+
+class SwitchBreak(Exception):
+    pass
+
+
+class Returned(Exception):
+    def __init__(self, value):
+        self.value = value
+
+
 def mac_top(n, name):
     m = n.get("m") or []
     return bool(m) and m[-1] == "b:" + name
@@ -50,6 +63,8 @@ class Step(object):
         self.env = {}
         self.emits = []
         self.cur = self.nxt = None
+        self.depth = 0
+        self.in_switch = 0
 
     # ---- values
     def truth(self, v):
@@ -231,6 +246,24 @@ class Step(object):
                 if v[0] != "ch":
                     raise Undecided("isspace")
                 return ("bool", v[1] == "DELIM")
+            g = self.fn.unit.functions.get(cn or "")
+            if g is not None and g.body is not None and self.depth < 3 and len(g.params) == len(n["ch"]) - 1:
+                # a unit-local predicate / classifier: evaluated on the argument values (no access to the caller's cursor)
+                vals = [self.ev(a) for a in n["ch"][1:]]
+                saved = (self.env, self.fn, self.depth)
+                self.env = {p_["d"]: v_ for p_, v_ in zip(g.params, vals)}
+                self.fn = g
+                self.depth += 1
+                try:
+                    self.stmt(g.body)
+                    res = ("int", 0)
+                except Returned as r_:
+                    res = r_.value
+                except (StepEnd, SwitchBreak):
+                    raise Undecided("control flow leaves helper %s" % cn)
+                finally:
+                    self.env, self.fn, self.depth = saved
+                return res
             raise Undecided("call of %s" % cn)
         if k == "stmtexpr":
             blk = n["ch"][0]
@@ -261,15 +294,82 @@ class Step(object):
             return None
         if k == "null":
             return None
-        if k in ("while", "for", "do", "switch", "break", "continue", "return", "goto"):
+        if k == "continue":
+            if self.depth:
+                raise Undecided("continue inside a helper")
+            raise StepEnd()
+        if k == "return":
+            if not self.depth:
+                raise Undecided("return inside the step")
+            raise Returned(self.ev(s["val"]) if s.get("val") is not None else ("int", 0))
+        if k == "break":
+            if self.in_switch:
+                raise SwitchBreak()
+            raise Undecided("break out of the token loop inside the step")
+        if k == "switch":
+            return self.switch(s)
+        if k in ("while", "for", "do", "goto"):
             raise Undecided("control statement %s in the step" % k)
         return self.ev(s)
+
+    def switch(self, s):
+        v = self.ev(s["cond"])
+        body = s.get("body")
+        if body is None or body.get("k") != "block":
+            raise Undecided("switch body")
+        seq = []
+        for x in body.get("ch", []):
+            while x is not None and x.get("k") in ("case", "default"):
+                seq.append(("label", x))
+                x = x.get("sub")
+            if x is not None:
+                seq.append(("stmt", x))
+        start = None
+        dflt = None
+        for i, (t, x) in enumerate(seq):
+            if t != "label":
+                continue
+            if x.get("k") == "default":
+                dflt = i
+                continue
+            cv = X.const_val(x.get("val"))
+            if cv is None:
+                raise Undecided("non-constant case label")
+            if v[0] == "ch":
+                if cv not in LITERAL and v[1] == "OTHER":
+                    raise Undecided("case label for an ordinary character")
+                hit = LITERAL.get(cv) == v[1]
+            elif v[0] == "int":
+                hit = cv == v[1]
+            else:
+                raise Undecided("switch on %r" % (v,))
+            if hit and start is None:
+                start = i
+        if start is None:
+            start = dflt
+        if start is None:
+            return None
+        self.in_switch += 1
+        try:
+            for t, x in seq[start:]:
+                if t == "stmt":
+                    self.stmt(x)
+        except SwitchBreak:
+            pass
+        finally:
+            self.in_switch -= 1
+        return None
 
     def run(self, loop, cur, nxt, quote):
         self.cur, self.nxt = cur, nxt
         self.env = {self.cursor: ("ptr", 0), self.quote: ("ch", quote)}
         self.emits = []
-        self.stmt(loop["body"])
+        self.depth = 0
+        self.in_switch = 0
+        try:
+            self.stmt(loop["body"])
+        except StepEnd:
+            pass
         if loop.get("inc") is not None:
             self.ev(loop["inc"])
         adv = self.env[self.cursor]
